@@ -253,6 +253,35 @@ def run(ctx: Context, rep) -> None:
     rep.floor("C17.join", n_sinks, 5, "instances")
 
     # ---------------------------------------------------------------------
+    # the validators only see what is parsed through the models
+    rep.rule(
+        "C17.parse",
+        "metadata files are parsed only by <persisted model>."
+        "model_validate_json (which runs the path validators): no json.load / "
+        "json.loads and no model_construct in sedpack.io, so no path read "
+        "from a metadata file bypasses the validators")
+    n_parse = 0
+    for fn in ctx.repo.all_functions():
+        if not fn.module.name.startswith("sedpack.io"):
+            continue
+        for c_ in fn.calls():
+            if isinstance(c_.func, ast.Attribute) and c_.func.attr in (
+                    "model_validate_json", ):
+                n_parse += 1
+            raw = ctx.is_call(fn, c_, "json.load", "json.loads") or (
+                isinstance(c_.func, ast.Attribute) and c_.func.attr in (
+                    "model_construct", "construct"))
+            if raw:
+                rep.ob("C17.parse", False, loc=fn.loc(c_), where=fn.qualname,
+                       construct=short(c_, 70),
+                       message="a metadata file is parsed without the models' "
+                       "validators (paths taken from it are unchecked)")
+    rep.ob("C17.parse", n_parse >= 3,
+           loc="src/sedpack/io/dataset_base.py:1", where="sedpack.io",
+           construct=f"{n_parse} model_validate_json site(s), no raw parse",
+           message="metadata is parsed through the validating models")
+
+    # ---------------------------------------------------------------------
     rep.rule(
         "C17.contain",
         "in ShardsList.load_or_create the containment test compares the "
@@ -316,7 +345,9 @@ def run(ctx: Context, rep) -> None:
            construct="not contained => no read",
            message="with the containment test false no file read is "
            f"reachable ({len(reads)} reachable)")
-
+    # nothing read from the dataset's files / the environment is memoised
+    from sa.rules import shared as _shm
+    _shm.check_no_memo(ctx, rep, "C17.memo")
 
 def check_join(ctx: Context, rep, field_names: set[str]) -> int:
     # summaries: parameters that flow into a read sink
@@ -422,6 +453,10 @@ _DF = "src/sedpack/io/dataset_filler.py"
 _ABS_FI = ('        if v.is_absolute():\n            raise ValueError("An absolute path is not relative to "\n'
            '                             "`dataset_root_path`.")\n')
 SELFTESTS = [
+    dict(rule="C17.parse", name="children-read-from-raw-json", expect="fire",
+         path="src/sedpack/io/dataset_writing.py",
+         old="        for child in shard_list.children_shard_lists:\n            self._check_shard_list_info(child)\n",
+         new="        import json\n        for child in json.loads((self.path / file_path).read_text(encoding=\"utf-8\")).get(\"children_shard_lists\", []):\n            self._check_shard_list_info(ShardListInfo.model_validate(child))\n"),
     dict(rule="C17.contain", name="only-directory-resolved", expect="fire", path=_SM,
          old="        canonical_path = (dataset_root_path / relative_path_self).resolve()\n",
          new="        canonical_path = (dataset_root_path / relative_path_self.parent).resolve() / relative_path_self.name\n"),
